@@ -145,7 +145,7 @@ def judge(case, ctx, prefix='C11'):
     if peak > 0 and tail.size > 1:
         inc = float(np.max(np.diff(tail)))
         ctx.maxstat('max_energy_increase_over_peak', inc / peak)
-        if inc > 1e-9 * peak:
+        if inc > max(1e-9, 256 * dynamics.construction_kappa(cd) * 2.0 ** -53) * peak:
             ctx.violation(f'{prefix}/energy-grows-without-excitation', f'stored energy increases by {inc!r} (peak {peak!r}) after all inputs returned to zero', {'order_class': order_class(cd)})
         if not np.all(np.isfinite(E)):
             ctx.violation(f'{prefix}/unbounded-response', 'non-finite stored energy', {})
